@@ -9,11 +9,16 @@ open Sodg
 inductive HS where
   | live (g : G)
   | dead          -- a call on it panicked
-  | unmodelled    -- left the modelled fragment (15th group, `join`)
+  | unmodelled    -- left the modelled fragment (`join`; anything but core calls on a `total` handle)
+  | total (g : G) (panicked : Bool)
+      -- outside the fragment of `step`, followed by the total model `stepT` (Core/Total.lean): after a 15th group
+      -- (`panicked = false`), and, when the harness keeps executing calls on a handle that has panicked (soak
+      -- mode, C07), in the state the panic left behind (`panicked = true`; the observations carry the prefix `soak`)
 
 structure World where
   hs : Array (Option HS) := #[]
   cfg : PureCfg := {}
+  soak : Bool := false
 
 def World.get (w : World) (h : Nat) : Option HS := (w.hs.getD h none)
 
@@ -112,14 +117,21 @@ def showPost (g : G) (op : Op) : String :=
   showNats (keys g) ++ " ; " ++
     " ".intercalate (((opArgs op).filter (fun v => v < cap g ∧ tag g v ≠ 0)).map (showEntry g))
 
+/-- a core call through the total model: the state the call leaves behind even when it panics -/
+def totalCall (soak : Bool) (g : G) (panicked : Bool) (op : Op) : HS × String :=
+  let pre := if panicked then "soak " else ""
+  match stepT g op with
+  | (g', some o) => (.total g' panicked, pre ++ showOut o ++ " ; " ++ showPost g' op)
+  | (g', none) => if soak then (.total g' true, pre ++ "panic") else (.dead, "panic")
+
 /-- run a core call on a live graph -/
-def coreCall (g : G) (op : Op) : HS × String :=
+def coreCall (soak : Bool) (g : G) (op : Op) : HS × String :=
   let unm := match op with
     | .bind v1 v2 _ => bindUnmodelled g v1 v2
     | _ => false
-  if unm then (.unmodelled, "unmodelled")
+  if unm then totalCall soak g false op
   else match step g op with
-    | none => (.dead, "panic")
+    | none => if soak then totalCall soak g false op else (.dead, "panic")
     | some (g', o) => (.live g', showOut o ++ " ; " ++ showPost g' op)
 
 def execLine2 (w : World) (line : String) : World × String :=
@@ -137,6 +149,7 @@ def execLine2 (w : World) (line : String) : World × String :=
     | some a, some b =>
       match w.get a with
       | some (.live g) => (w.set b (.live g), "ok ; " ++ showNats (keys g))
+      | some (.total g _) => (w.set b (.total g false), "ok ; " ++ showNats (keys g))
       | some .dead => (w.set b .dead, "dead")
       | some .unmodelled => (w.set b .unmodelled, "unmodelled")
       | none => (w, "bad-op")
@@ -144,6 +157,7 @@ def execLine2 (w : World) (line : String) : World × String :=
   | ["snap", h] =>
     match (parseHandle h).bind w.get with
     | some (.live g) => (w, (showSnap g).replace " " "_")
+    | some (.total g _) => (w, (showSnap g).replace " " "_")
     | some .dead => (w, "dead")
     | some .unmodelled => (w, "unmodelled")
     | none => (w, "bad-op")
@@ -152,6 +166,7 @@ def execLine2 (w : World) (line : String) : World × String :=
     | some a =>
       match w.get a with
       | some (.live g) => (w, showObserve g)
+      | some (.total g _) => (w, showObserve g)
       | some .dead => (w, "dead")
       | some .unmodelled => (w, "unmodelled")
       | none => (w, "bad-op")
@@ -166,6 +181,7 @@ def execLine2 (w : World) (line : String) : World × String :=
         | none => (w.set b .dead, "panic")
       | some .dead => (w.set b .dead, "dead")
       | some .unmodelled => (w.set b .unmodelled, "unmodelled")
+      | some (.total _ _) => (w.set b .unmodelled, "unmodelled")
       | none => (w, "bad-op")
     | _, _, _, _ => (w, "bad-op")
   | ["merge", h, h', l, r] =>
@@ -181,7 +197,9 @@ def execLine2 (w : World) (line : String) : World × String :=
       | some .dead, _ => (w, "dead")
       | _, some .dead => (w, "dead")
       | some .unmodelled, _ => (w, "unmodelled")
+      | some (.total _ _), some _ => (w.set a .unmodelled, "unmodelled")
       | some _, some .unmodelled => (w.set a .unmodelled, "unmodelled")
+      | some _, some (.total _ _) => (w.set a .unmodelled, "unmodelled")
       | _, _ => (w, "bad-op")
     | _, _, _, _ => (w, "bad-op")
   | ["same", _, _] => (w, "ok")
@@ -197,6 +215,7 @@ def execLine2 (w : World) (line : String) : World × String :=
         | (_, .panic, _) => (w.set a .dead, "panic")
       | some .dead => (w, "dead")
       | some .unmodelled => (w, "unmodelled")
+      | some (.total _ _) => (w.set a .unmodelled, "unmodelled")
       | none => (w, "bad-op")
     | _, _ => (w, "bad-op")
   | ["save", h] =>
@@ -204,6 +223,7 @@ def execLine2 (w : World) (line : String) : World × String :=
     | some (.live g) => (w, "ok " ++ hexOfBytes (Cd.save g))
     | some .dead => (w, "dead")
     | some .unmodelled => (w, "unmodelled")
+    | some (.total _ _) => (w, "unmodelled")
     | none => (w, "bad-op")
   | ["reload", h, h'] =>
     match parseHandle h, parseHandle h' with
@@ -216,6 +236,7 @@ def execLine2 (w : World) (line : String) : World × String :=
         | .error _ => (w.set b .dead, "err")
       | some .dead => (w.set b .dead, "dead")
       | some .unmodelled => (w.set b .unmodelled, "unmodelled")
+      | some (.total _ _) => (w.set b .unmodelled, "unmodelled")
       | none => (w, "bad-op")
     | _, _ => (w, "bad-op")
   | ["loadcuts", h, step] =>
@@ -232,6 +253,7 @@ def execLine2 (w : World) (line : String) : World × String :=
       (w, s!"ok {size} {ks.length} bad=[{",".intercalate bad}]")
     | some .dead, _ => (w, "dead")
     | some .unmodelled, _ => (w, "unmodelled")
+    | some (.total _ _), _ => (w, "unmodelled")
     | _, _ => (w, "bad-op")
   | cmd :: h :: rest =>
     match parseHandle h with
@@ -244,7 +266,13 @@ def execLine2 (w : World) (line : String) : World × String :=
       | some (.live g) =>
         match parseCoreOp (cmd :: rest) with
         | some op =>
-          let (s, out) := coreCall g op
+          let (s, out) := coreCall w.soak g op
+          (w.set a s, out)
+        | none => (w, "bad-op")
+      | some (.total g p) =>
+        match parseCoreOp (cmd :: rest) with
+        | some op =>
+          let (s, out) := totalCall w.soak g p op
           (w.set a s, out)
         | none => (w, "bad-op")
   | _ => (w, "bad-op")
@@ -259,6 +287,7 @@ def execLine (w : World) (line : String) : World × String :=
         (w, "ok " ++ esc (if cmd = "xml" then Rs.toXml g else if cmd = "dot" then Rs.toDot g else Rs.toDebug g))
       | some .dead => (w, "dead")
       | some .unmodelled => (w, "unmodelled")
+      | some (.total _ _) => (w, "unmodelled")
       | none => (w, "bad-op")
     else execLine2 w line
   | [cmd, h, v] =>
@@ -270,6 +299,7 @@ def execLine (w : World) (line : String) : World × String :=
         | none => (w, "panic")
       | some .dead, _ => (w, "dead")
       | some .unmodelled, _ => (w, "unmodelled")
+      | some (.total _ _), _ => (w, "unmodelled")
       | _, _ => (w, "bad-op")
     else execLine2 w line
   | _ => execLine2 w line
